@@ -17,6 +17,7 @@ TRICKY_STRINGS = [
     "//c", "/*c*/", "/*", "*/", "#", "# x", "%s", "%(a)s", "%", "{0}", "{}", "{a}", "{{", "$x", "`x`",
     "x y", "a,b", "(a)", "(1,2)", "[1]", "a:b", "a;b", "def", "return", "weighted", "not in", "else if",
     "a" * 300,
+    "$$", "$key", "${name}", "$args", "$1", "name", "id", "group_definition", "__class__", "self",
     "a    b", "        ", "x\t\ty", "  lead", "trail  ", "a\u00a0\u00a0\u00a0\u00a0b", "a \t b",
 ]
 
